@@ -226,6 +226,8 @@ CHECKS = {
         technique='Lean 4 proof by kernel decision over the regenerated version table (all pairs and triples) + exhaustive pairwise correspondence',
         text=("Trichotomy, transitivity, irreflexivity, eq/hash consistency, the chain SSL2 < SSL3 < TLS1.0 < 1.1 < 1.2 < every "
               "pre-release < TLS1.3, drafts ordered by number and the total_ordering-derived operators are decided by the Lean "
+              "kernel; from totality, transitivity and antisymmetry it is proved that sorting ANY two arrangements of the same "
+              "versions gives the same list, hence the same min and max (sorted_independent_of_arrival). The order is decided by the "
               "kernel over every pair/triple of the version table regenerated from the code. The model of __lt__/__eq__/hash is "
               "compared with the implementation on ALL ordered pairs for <, <=, ==, !=, >, >= and hash equality (exhaustive)."),
         design='§6 C17',
